@@ -212,7 +212,15 @@ class RuntimeV1_0(Runtime):
                 + len(rails.retrieval.flows)
             )
             if len(new_events) > max_events:
-                raise Exception("Too many events.")
+                # The processing does not come to an end: the turn is ended with the
+                # internal error message.
+                log.warning("Too many events.")
+                error_events = self._internal_error_action_result(
+                    "I'm sorry, an internal error has occurred."
+                ).events + [new_event_dict("Listen")]
+                events.extend(error_events)
+                new_events.extend(error_events)
+                break
 
         return new_events
 
